@@ -200,14 +200,26 @@ func (b *backend) list() map[string][]byte {
 		}
 		return out
 	}
-	filepath.Walk(b.dir, func(p string, info os.FileInfo, err error) error {
-		if err == nil && !info.IsDir() {
-			rel, _ := filepath.Rel(b.dir, p)
-			d, _ := os.ReadFile(p)
-			out[rel] = d
+	walk := func(root, relRoot string) {
+		filepath.Walk(root, func(p string, info os.FileInfo, err error) error {
+			if err == nil && !info.IsDir() && info.Mode()&os.ModeSymlink == 0 {
+				rel, _ := filepath.Rel(root, p)
+				d, _ := os.ReadFile(p)
+				out[filepath.Join(relRoot, rel)] = d
+			}
+			return nil
+		})
+	}
+	walk(b.dir, "")
+	// prefix directories that are symlinks to directories elsewhere (a store spread over several disks)
+	ents, _ := os.ReadDir(b.dir)
+	for _, e := range ents {
+		if e.Type()&os.ModeSymlink != 0 {
+			if t, err := filepath.EvalSymlinks(filepath.Join(b.dir, e.Name())); err == nil {
+				walk(t, e.Name())
+			}
 		}
-		return nil
-	})
+	}
 	return out
 }
 
@@ -272,6 +284,25 @@ func run(c *harness.Ctx, i int) {
 		cats[o.category] = true
 	}
 	opt := desync.StoreOptions{Uncompressed: uncompressed, N: 2, ErrorRetry: 0}
+	// some prefix directories of a local store live elsewhere and are linked in (a store spread over several disks):
+	// the store serves what is in them, so prune and verify have to look there too
+	if strings.HasPrefix(kind, "local") && rng.Intn(5) == 0 {
+		ents, _ := os.ReadDir(b.dir)
+		moved := 0
+		for _, e := range ents {
+			if e.IsDir() && len(e.Name()) == 4 && rng.Intn(2) == 0 {
+				disk2 := filepath.Join(dir, "disk2")
+				os.MkdirAll(disk2, 0755)
+				if os.Rename(filepath.Join(b.dir, e.Name()), filepath.Join(disk2, e.Name())) == nil {
+					os.Symlink(filepath.Join(disk2, e.Name()), filepath.Join(b.dir, e.Name()))
+					moved++
+				}
+			}
+		}
+		if moved > 0 {
+			cats["linked-prefix-dirs"] = true
+		}
+	}
 	// local stores are sometimes addressed through a symlink to the directory
 	addr := b.dir
 	cliDir := ""
@@ -488,16 +519,18 @@ func run(c *harness.Ctx, i int) {
 	unpriv := kind == "local-cli" && rng.Intn(3) == 0
 	unreadable := map[string]bool{}
 	if unpriv {
-		filepath.Walk(b.dir, func(p string, info os.FileInfo, err error) error {
-			if err == nil {
-				if info.IsDir() {
-					os.Chmod(p, 0777)
-				} else {
-					os.Chmod(p, 0666)
+		for _, root := range []string{b.dir, filepath.Join(dir, "disk2")} {
+			filepath.Walk(root, func(p string, info os.FileInfo, err error) error {
+				if err == nil && info.Mode()&os.ModeSymlink == 0 {
+					if info.IsDir() {
+						os.Chmod(p, 0777)
+					} else {
+						os.Chmod(p, 0666)
+					}
 				}
-			}
-			return nil
-		})
+				return nil
+			})
+		}
 		os.Chmod(dir, 0755)
 		os.Chmod(cfgFile, 0644)
 		for _, o := range objs {
